@@ -102,6 +102,8 @@ pub struct QObs {
     /// after all timed waits have expired:
     pub q2: Option<(usize, usize)>,
     pub blocked2: Vec<(usize, usize, String)>,
+    /// calls that had returned when the second quiescence was reached
+    pub returned2: Vec<(usize, usize)>,
     pub finished: bool,
 }
 
@@ -190,18 +192,16 @@ pub fn body(sc: QScenario, obs: Arc<Mutex<QObs>>) {
         let mut o = obs.lock().unwrap();
         o.q2 = Some(snap);
         o.blocked2 = blocked_calls(&o);
+        o.returned2 = o.calls.iter().filter(|c| c.returned.is_some()).map(|c| (c.consumer, c.idx)).collect();
     }
     // release whoever is still (legitimately) blocked so that the execution ends
-    loop {
-        let n = blocked_calls(&obs.lock().unwrap()).len();
-        if n == 0 {
+    let total_calls: usize = sc.consumers.iter().map(|c| c.len()).sum();
+    for _ in 0..=total_calls {
+        if blocked_calls(&obs.lock().unwrap()).is_empty() {
             break;
         }
         q.unblock();
         ctl::settle();
-        if blocked_calls(&obs.lock().unwrap()).len() == n {
-            break;
-        }
     }
     for h in hs {
         let _ = h.join();
@@ -239,7 +239,7 @@ pub fn judge(sc: &QScenario, o: &QObs, res: &RunResult, which: &str) -> Vec<(Str
             ));
         }
         // exactly once, nothing invented, nothing lost
-        let before_q2 = |c: &&CallObs| !o.blocked2.iter().any(|b| b.0 == c.consumer && b.1 == c.idx);
+        let before_q2 = |c: &&CallObs| o.returned2.iter().any(|b| b.0 == c.consumer && b.1 == c.idx);
         let returned: Vec<u32> = o.calls.iter().filter(before_q2).filter_map(|c| c.returned.and_then(|r| r.0)).collect();
         let mut sorted = returned.clone();
         sorted.sort();
@@ -285,14 +285,14 @@ pub fn judge(sc: &QScenario, o: &QObs, res: &RunResult, which: &str) -> Vec<(Str
                 .calls
                 .iter()
                 .filter(|c| c.kind == "Pop" && matches!(c.returned, Some((None, _, _))))
-                .filter(|c| !o.blocked2.iter().any(|b| b.0 == c.consumer && b.1 == c.idx))
+                .filter(|c| o.returned2.iter().any(|b| b.0 == c.consumer && b.1 == c.idx))
                 .count();
             let _ = pops_none;
             let all_none_before: usize = o
                 .calls
                 .iter()
                 .filter(|c| matches!(c.returned, Some((None, _, _))))
-                .filter(|c| !o.blocked2.iter().any(|b| b.0 == c.consumer && b.1 == c.idx))
+                .filter(|c| o.returned2.iter().any(|b| b.0 == c.consumer && b.1 == c.idx))
                 .count();
             let early_timed_none: usize = o
                 .calls
@@ -334,7 +334,7 @@ pub fn judge(sc: &QScenario, o: &QObs, res: &RunResult, which: &str) -> Vec<(Str
             let returned: Vec<u32> = o
                 .calls
                 .iter()
-                .filter(|c| !o.blocked2.iter().any(|b| b.0 == c.consumer && b.1 == c.idx))
+                .filter(|c| o.returned2.iter().any(|b| b.0 == c.consumer && b.1 == c.idx))
                 .filter_map(|c| c.returned.and_then(|r| r.0))
                 .collect();
             if returned.len() + q2.0 != o.pushed.len() {
